@@ -37,14 +37,19 @@ class _Leave(Exception):
 
 
 class _AliasEval(Evaluator):
-    def __init__(self, assign: dict[str, Any], aliases: dict[str, ast.expr], order: list[str]) -> None:
+    def __init__(self, assign: dict[str, Any], aliases: dict[str, ast.expr], order: list[str], call_hook=None) -> None:
         super().__init__(assign)
         self.aliases = aliases
         self.order = order
+        self.call_hook = call_hook
 
     def ev(self, e: ast.AST) -> Any:
         if isinstance(e, ast.Name) and e.id in self.aliases and norm(e) not in self.assign:
             return self.ev(self.aliases[e.id])
+        if self.call_hook is not None and isinstance(e, ast.Call) and norm(e) not in self.assign:
+            r = self.call_hook(e, self.assign)
+            if r is not NotImplemented:
+                return r
         try:
             v = super().ev(e)
         except NeedAtom:
@@ -77,6 +82,7 @@ def decision_tree(
     max_atoms: int = 12,
     domain: Callable[[str], tuple] | None = None,
     try_as_body: bool = False,
+    call_hook: Callable[[ast.Call, dict[str, Any]], Any] | None = None,
 ) -> list[Leaf]:
     """Enumerate the leaves.  ``loop_hook(loop, assign)`` may interpret a loop: it returns
     None (loop is an opaque simple statement), or "return-false"/"return-true"... handled by caller
@@ -90,7 +96,7 @@ def decision_tree(
         order: list[str] = []
 
         def evaluate(e: ast.expr) -> Any:
-            return _AliasEval(assign, aliases, order).ev(e)
+            return _AliasEval(assign, aliases, order, call_hook).ev(e)
 
         def block(ss: list[ast.stmt]) -> None:
             for st in ss:
@@ -157,8 +163,15 @@ def leave(outcome: str, value: ast.expr | None = None) -> _Leave:
 
 
 def _is_guardish(e: ast.expr) -> bool:
-    """Expressions worth inlining as aliases: comparisons, boolean combinations, not."""
-    return isinstance(e, (ast.Compare, ast.BoolOp)) or (isinstance(e, ast.UnaryOp) and isinstance(e.op, ast.Not))
+    """Expressions worth inlining as aliases along a path: comparisons, boolean combinations, not, and pure predicate calls."""
+    if isinstance(e, (ast.Compare, ast.BoolOp)) or (isinstance(e, ast.UnaryOp) and isinstance(e.op, ast.Not)):
+        return True
+    if isinstance(e, ast.Call):
+        from .normalize import is_pure_expr
+        return is_pure_expr(e) and (dotted(e.func) in ("isinstance", "issubclass", "hasattr", "any", "all", "bool"))
+    if isinstance(e, ast.Constant) and isinstance(e.value, bool):
+        return True
+    return False
 
 
 def ret_bool(leaf: Leaf) -> bool | None:
@@ -168,11 +181,11 @@ def ret_bool(leaf: Leaf) -> bool | None:
     return None
 
 
-def eval_leaf_value(leaf: Leaf) -> Any:
+def eval_leaf_value(leaf: Leaf, call_hook=None) -> Any:
     """Evaluate the returned expression under the leaf's assignment (may raise NeedAtom)."""
     if leaf.value is None:
         return None
-    return Evaluator(leaf.assign).ev(leaf.value)
+    return _AliasEval(leaf.assign, {}, [], call_hook).ev(leaf.value)
 
 
 def bool_function(stmts: list[ast.stmt], preset: dict[str, Any] | None = None, **kw: Any) -> list[tuple[dict[str, Any], bool, Leaf]]:
@@ -190,7 +203,7 @@ def bool_function(stmts: list[ast.stmt], preset: dict[str, Any] | None = None, *
             rows.append((lf.assign, lf.outcome, lf))  # type: ignore[arg-type]
             continue
         try:
-            v = eval_leaf_value(lf)
+            v = eval_leaf_value(lf, kw.get("call_hook"))
             rows.append((lf.assign, v, lf))
         except NeedAtom as n:
             for val in dom(n.key):
